@@ -9,12 +9,18 @@ read paths (iteration and a[i:j] go through `_array`; flatten, a[r, c] and a[:, 
 Aliasing clauses (copy=True never aliases, operators return new objects and leave operands alone) are
 runtime checks made by mutating the source / the result and re-reading.
 """
+import os
+import sys
 import numpy as np
-from core import cz, cn, cb, clist, copt
+from core import cz, cn, cb, clist, copt, VERIF
+sys.path.insert(0, os.path.join(VERIF, "translator"))
+import tr_ragged
+import tr_ragged_ops
 
 PID = "C06"
 PROPS_FILE = "Props/C06.v"
-MODEL_TARGETS = ["Model/RaggedOps.vo"]
+MODEL_TARGETS = ["Model/RaggedOps.vo", "Gen/RaOpsGen.vo", "Model/RaggedOpsGen.vo"]
+GEN_FILES = ["Gen/RaOpsGen.v"]
 CASE_HEADER = ("From Coq Require Import List ZArith.\nFrom EV Require Import PySlice RaggedOps.\n"
                "Import ListNotations.\n")
 RULE = ("start arrays of 1..5 rows x 1..5 small integers (rectangular and not; nested-list, flat+list-lengths and "
@@ -24,9 +30,21 @@ RULE = ("start arrays of 1..5 rows x 1..5 small integers (rectangular and not; n
         "values are scalars, flat vectors, nested lists and RaggedArrays; ~12% of the writes are malformed on purpose "
         "(out-of-range index, wrong value length, scalar for a ragged row, flat append).  After every write _data, "
         "_array, lengths and six public read paths are compared with the Coq model and with a list-of-rows interpreter. "
+        "Three further streams: (i) observe-append-observe histories (starts, a[r, c], a[:, s], a[r] read before an "
+        "append and again after it, then a write into the appended row); (ii) one-row arrays built from an ndarray row "
+        "with the default copy, and writes into one-row selections a[i:i+1] / a[[i]] of any array, after which the "
+        "parent must be unchanged; (iii) rectangular arrays built from nested lists / flat data with lengths given as a "
+        "list, 2-D slice assignment, then row reads and a whole-row assignment.  "
         "non-trivial := >= 2 rows, >= 3 successful writes, at least one through the row view (route A) and one through "
-        "the flat data (route B)")
-TRUSTED = ["modelled not verified: NumPy fancy assignment (in order, last write wins), broadcasting of a scalar / "
+        "the flat data (route B); or any case of the three streams with >= 1 successful write")
+TRUSTED = ["translator/tr_ragged_ops.py (+ tr_ragged.py for the flat-offset arithmetic): the write path's structure is "
+           "regenerated from the current source -- per index form of __setitem__ the ordered statements that touch the "
+           "object, the two append branches, the constructor's slot sources per input class and the default of copy, the "
+           "map_operator / __invert__ calls and the 23 operator methods, __slots__, the starts / size definitions in "
+           "effect.  Local computations on the way are pinned as text; the meaning of each effect statement "
+           "(Model/RaggedOpsGen.v: it assigns exactly that slot) and the NumPy semantics of the row-view write are "
+           "trusted",
+           "modelled not verified: NumPy fancy assignment (in order, last write wins), broadcasting of a scalar / "
            "length-1 value, np.concatenate, object-array row storage; ra.where's flat->(row,col) conversion is C05's",
            "aliasing clauses (copy never aliases the caller's data; operators return new objects and never alter "
            "operands) are heap facts: checked at run time by mutating source / result, not proved"]
@@ -36,6 +54,13 @@ ASSUMPTIONS = ["integer element data, every row non-empty, slice steps non-zero;
                "length-1 column lists broadcast against longer row lists, augmented assignment on an empty selection, "
                "operands of different total size"]
 SHARD = 60
+
+
+def translate(repo):
+    files = dict(tr_ragged.translate(repo))        # Gen/RaGen.v: the offset arithmetic used by the write path
+    files.update(tr_ragged_ops.translate(repo))
+    return files
+
 EXHAUSTIVE = {"thorough": False}
 
 BIN = {"add": ("BAdd", "__add__", "__iadd__"), "sub": ("BSub", "__sub__", "__isub__"), "mul": ("BMul", "__mul__", "__imul__"),
@@ -446,6 +471,141 @@ def _gen_obs(rng, rows):
     return [q]
 
 
+def _obs_reads(rng, rows):
+    """explicit observations through the three derived paths: starts, a[r, c] / a[:, s] (flat data), a[r] (row view)"""
+    n = len(rows)
+    r = rng.randint(-n, n - 1)
+    out = [["Starts"], ["Elem", r, rng.randint(-len(rows[r]), len(rows[r]) - 1)], ["ColSl"] + _slice(rng, max(map(len, rows))),
+           ["Row", rng.randint(-n, n - 1)]]
+    if rng.random() < 0.5:
+        out.append(["ColSl", None, None, rng.choice([None, 2, -1])])
+    rng.shuffle(out)
+    return [{"t": "obs", "q": q} for q in out[:rng.randint(2, len(out))]]
+
+
+def _flat_init(rows, np_lens):
+    return {"kind": "flat", "data": [x for r in rows for x in r], "lens": [len(r) for r in rows], "np": np_lens}
+
+
+def _track(items, cur, op):
+    items.append({"t": "op", "op": op})
+    try:
+        return shadow_apply(cur, op)
+    except Rej:
+        return cur
+
+
+def _stream_append(rng, maxitems):
+    """observe - append - observe - write into the appended rows - observe"""
+    n = rng.randint(1, 4)
+    rect = rng.random() < 0.4
+    L = rng.randint(1, 4)
+    rows = [[_val(rng) for _ in range(L if rect else rng.randint(1, 5))] for _ in range(n)]
+    init = {"kind": "rows", "rows": rows, "np": rng.random() < 0.5} if rng.random() < 0.5 \
+        else _flat_init(rows, rng.random() < 0.5)
+    items, cur = [], rows
+    for _ in range(rng.randint(1, 1 + maxitems // 8)):
+        items += _obs_reads(rng, cur)
+        if rng.random() < 0.4:                      # mask read / write before the append as well
+            c, k = rng.choice(list(CMP)), _val(rng)
+            mask = [[pycmp(c, x, k) for x in r] for r in cur]
+            cur = _track(items, cur, ["SetMask", {"mask": mask, "cmp": [c, k]}, ["s", _val(rng)]])
+        m = rng.randint(1, 2)
+        vs = [[_val(rng) for _ in range(L if rect and rng.random() < 0.7 else rng.randint(1, 4))] for _ in range(m)]
+        cur = _track(items, cur, ["Append", vs, rng.choice(["ra", "lists"])])
+        items += _obs_reads(rng, cur)
+        nn = len(cur)
+        q = rng.random()
+        last = len(cur[-1])
+        if q < 0.35:
+            cur = _track(items, cur, ["SetElem", rng.choice([-1, nn - 1]), rng.randint(-last, last - 1), _val(rng)])
+        elif q < 0.6:
+            c, k = rng.choice(list(CMP)), _val(rng)
+            mask = [[pycmp(c, x, k) for x in r] for r in cur]
+            mask[-1][rng.randint(0, last - 1)] = True
+            cur = _track(items, cur, ["SetMask", {"mask": mask, "cmp": None}, ["s", _val(rng)]])
+        elif q < 0.85:
+            cur = _track(items, cur, ["Set2D", ["sl", None, None, None], ["sl", None, None, rng.choice([None, 2])], ["s", _val(rng)]])
+        else:
+            cur = _track(items, cur, ["SetRow", -1, ["v", [_val(rng) for _ in range(last)]]])
+        items += _obs_reads(rng, cur)
+    return {"init": init, "items": items, "stream": "append"}
+
+
+def _selw(rng, rows):
+    i = rng.randint(0, len(rows) - 1)
+    return {"t": "selw", "how": rng.choice(["sl", "li"]), "r": i, "c": rng.randint(-len(rows[i]), len(rows[i]) - 1),
+            "v": 70 + rng.randint(0, 9)}
+
+
+def _stream_onerow(rng, maxitems):
+    """one-row arrays from an ndarray row (default copy); writes into one-row selections of any array"""
+    if rng.random() < 0.6:
+        rows = [[_val(rng) for _ in range(rng.randint(1, 6))]]
+        init = {"kind": "rows", "rows": rows, "np": True}
+    else:
+        n = rng.randint(2, 4)
+        rect = rng.random() < 0.4
+        L = rng.randint(1, 4)
+        rows = [[_val(rng) for _ in range(L if rect else rng.randint(1, 5))] for _ in range(n)]
+        init = {"kind": "rows", "rows": rows, "np": rng.random() < 0.7} if rng.random() < 0.6 \
+            else _flat_init(rows, rng.random() < 0.5)
+    items, cur = [], rows
+    for _ in range(rng.randint(2, 3 + maxitems // 6)):
+        q = rng.random()
+        if q < 0.45:
+            items.append(_selw(rng, cur))
+            items.append({"t": "obs", "q": rng.choice([["Max"], ["Min"], ["Cmp", "gt", 50], ["Row", rng.randint(-len(cur), len(cur) - 1)]])})
+        elif q < 0.75:
+            r = rng.randint(-len(cur), len(cur) - 1)
+            cur = _track(items, cur, ["SetElem", r, rng.randint(-len(cur[r]), len(cur[r]) - 1), _val(rng)])
+        elif q < 0.9:
+            cur = _track(items, cur, _gen_op(rng, cur, False))
+        else:
+            items += _obs_reads(rng, cur)
+    return {"init": init, "items": items, "stream": "onerow"}
+
+
+def _stream_rect(rng, maxitems):
+    """rectangular arrays from nested lists / lengths given as a list; 2-D slice assignment; row reads"""
+    n, L = rng.randint(2, 4), rng.randint(2, 4)
+    rows = [[_val(rng) for _ in range(L)] for _ in range(n)]
+    init = {"kind": "rows", "rows": rows, "np": False} if rng.random() < 0.5 else _flat_init(rows, False)
+    items, cur = [], rows
+    for _ in range(rng.randint(1, 2 + maxitems // 8)):
+        q = rng.random()
+        if q < 0.45:
+            rsel, csel = ["sl"] + _slice(rng, n), ["sl"] + _slice(rng, L)
+        elif q < 0.6:
+            rsel, csel = ["sl"] + _slice(rng, n), ["int", rng.randint(-L, L - 1)]
+        elif q < 0.75:
+            rsel, csel = ["sl"] + _slice(rng, n), ["li", [rng.randint(-L, L - 1) for _ in range(rng.randint(1, 2))]]
+        else:
+            rsel, csel = ["li", [rng.randint(-n, n - 1) for _ in range(rng.randint(1, 2))]], ["sl"] + _slice(rng, L)
+        if rng.random() < 0.5:
+            rsel = ["sl", None, None, None]
+        try:
+            cells = _cells(cur, rsel, csel)
+        except Rej:
+            cells = []
+        if rng.random() < 0.5 or not cells:
+            v = ["s", 40 + rng.randint(0, 9)]
+        else:
+            v = ["v", [40 + rng.randint(0, 9) for _ in cells]]
+        cur = _track(items, cur, ["Set2D", rsel, csel, v])
+        for _ in range(rng.randint(1, 3)):
+            items.append({"t": "obs", "q": ["Row", rng.randint(-n, n - 1)]})
+        q = rng.random()
+        if q < 0.4:         # a whole-row write re-runs the constructor on the row view
+            cur = _track(items, cur, ["SetRow", rng.randint(-n, n - 1), ["v", [_val(rng) for _ in range(L)]]])
+            items += _obs_reads(rng, cur)
+        elif q < 0.6:
+            cur = _track(items, cur, ["AugRows", ["sl", None, None, None], "add", 1])
+        elif q < 0.8:
+            items.append({"t": "obs", "q": ["Elem", rng.randint(-n, n - 1), rng.randint(-L, L - 1)]})
+    return {"init": init, "items": items, "stream": "rect"}
+
+
 def generate(rng, tier):
     ncases = 320 if tier == "quick" else 2600
     maxitems = 12 if tier == "quick" else 40
@@ -476,6 +636,10 @@ def generate(rng, tier):
             except Rej:
                 pass
         cases.append({"init": init, "items": items})
+    nstream = 50 if tier == "quick" else 400
+    for f in (_stream_append, _stream_onerow, _stream_rect):
+        for _ in range(nstream):
+            cases.append(f(rng, maxitems))
     return cases
 
 
@@ -638,6 +802,12 @@ def _do_obs(a, q, RaggedArray):
         return bool(getattr(a, CMP[q[1]][1])(q[2]).any())
     if k == "Elem":
         return int(a[q[1], q[2]][0])
+    if k == "Starts":
+        return [int(x) for x in a.starts.tolist()]
+    if k == "Row":
+        return [int(x) for x in np.asarray(a[q[1]]).tolist()]
+    if k == "ColSl":
+        return a[:, _pysl(q[1:])]
     raise AssertionError(k)
 
 
@@ -690,6 +860,20 @@ def run_impl(c):
                         pass
                 if _snap(a) != keep:
                     out["alias"].append("array shares memory with the value assigned/appended (%s)" % it["op"][0])
+            steps.append(rec)
+        elif it["t"] == "selw":
+            # a one-row selection is a new object: writing into it must not reach the parent
+            rec = {}
+            try:
+                sel = a[it["r"]:it["r"] + 1] if it["how"] == "sl" else a[[it["r"]]]
+                sel[0, it["c"]] = it["v"]
+                rec["sel"] = _snap(sel)
+            except Exception as ex:
+                rec["err"] = _errkind(ex)
+                rec["msg"] = type(ex).__name__ + ": " + str(ex)[:120]
+            if _snap(a) != before:
+                out["alias"].append("operand altered by a write into the one-row selection a[%s] (now %s)"
+                                    % ("%d:%d" % (it["r"], it["r"] + 1) if it["how"] == "sl" else "[%d]" % it["r"], _snap(a)))
             steps.append(rec)
         else:
             rec = {}
@@ -757,7 +941,7 @@ def oracle(c, r):
             else "op-new-object" if msg.startswith("operator") else "value-no-alias"
         out.append((key, msg))
     for i, (it, rec) in enumerate(zip(c["items"], r["steps"])):
-        tag = "item %d %s" % (i, (it.get("op") or it.get("q"))[0])
+        tag = "item %d %s" % (i, (it.get("op") or it.get("q") or ["selw"])[0])
         if it["t"] == "op":
             try:
                 new = shadow_apply(rows, it["op"])
@@ -778,10 +962,16 @@ def oracle(c, r):
                     continue
             rows = new
             _check_state(tag, rec, rec["reads"], rows, out)
+        elif it["t"] == "selw":
+            row = list(rows[it["r"]])
+            row[it["c"]] = it["v"]
+            if rec.get("sel") != _ra_of([row]):
+                out.append(("op-new-object", "%s: write into a one-row selection gave %s (%s), expected %s"
+                            % (tag, rec.get("sel"), rec.get("msg"), _ra_of([row]))))
         else:
             q = it["q"]
             exp = _expect_obs(rows, q)
-            got = rec.get("ra") or (rec["val"] if "val" in rec else {"err": rec.get("err")})
+            got = rec["ra"] if "ra" in rec else (rec["val"] if "val" in rec else {"err": rec.get("err")})
             if got != exp:
                 out.append(("op-structure", "%s %s: got %s (%s), element-wise on the rows gives %s" % (tag, q, got, rec.get("msg"), exp)))
     return out
@@ -838,6 +1028,15 @@ def _expect_obs(rows, q):
             return rows[r][_wrap(len(rows[r]), q[2])]
         except Rej as ex:
             return {"err": ex.kind}
+    if k == "Starts":
+        return [sum(len(r) for r in rows[:i]) for i in range(len(rows))]
+    if k == "Row":
+        try:
+            return list(rows[_wrap(len(rows), q[1])])
+        except Rej as ex:
+            return {"err": ex.kind}
+    if k == "ColSl":
+        return _ra_of([list(r[_pysl(q[1:])]) for r in rows])
     raise AssertionError(k)
 
 
@@ -933,11 +1132,20 @@ def _obs(q):
         return "OBinRA %s %s" % (BIN[q[1]][0], _zll(q[2]))
     if k == "Elem":
         return "OElem %s %s" % (cz(q[1]), cz(q[2]))
+    if k == "Row":
+        return "ORow %s" % cz(q[1])
+    if k == "ColSl":
+        return "OColSl %s %s %s" % (_oz(q[1]), _oz(q[2]), _oz(q[3]))
     return "O" + k
 
 
+def _coq_items(c):
+    """the items the Coq trace follows (a write into a selection does not concern the array itself)"""
+    return [it for it in c["items"] if it["t"] != "selw"]
+
+
 def _items(c):
-    return clist(c["items"], lambda it: "(IOp (%s))" % _op(it["op"]) if it["t"] == "op" else "(IObs (%s))" % _obs(it["q"]), "item")
+    return clist(_coq_items(c), lambda it: "(IOp (%s))" % _op(it["op"]) if it["t"] == "op" else "(IObs (%s))" % _obs(it["q"]), "item")
 
 
 def _init(c):
@@ -960,6 +1168,8 @@ def coq_check(c, r):
         return None
     exp = ["(VRA %s)" % _slots(r["init"])]
     for it, rec in zip(c["items"], r["steps"]):
+        if it["t"] == "selw":
+            continue
         if it["t"] == "op":
             exp.append("(VStep %s %s)" % (copt(rec["e"], _err, "err"), _slots(rec)))
         elif "ra" in rec:
@@ -968,6 +1178,10 @@ def coq_check(c, r):
             exp.append("(VErr %s)" % _err(rec["err"]))
         elif isinstance(rec["val"], bool):
             exp.append("(VBool %s)" % cb(rec["val"]))
+        elif it["q"][0] == "Starts":
+            exp.append("(VNats %s)" % clist(rec["val"], cn, "nat"))
+        elif it["q"][0] == "Row":
+            exp.append("(VZs %s)" % _zl(rec["val"]))
         else:
             exp.append("(VZ (Some %s))" % cz(rec["val"]))
     return "check_trace %s %s %s" % (_init(c), _items(c), clist(exp, lambda x: x, "oval"))
@@ -989,6 +1203,8 @@ def _ok_ops(c, r):
 def nontrivial(c, r):
     ok = _ok_ops(c, r)
     nrows = len(c["init"]["rows"]) if c["init"]["kind"] == "rows" else len(c["init"]["lens"])
+    if c.get("stream"):
+        return len(ok) >= 1
     return nrows >= 2 and len(ok) >= 3 and any(k in ROUTE_A for k in ok) and any(k in ROUTE_B for k in ok)
 
 
@@ -998,10 +1214,29 @@ def tags(c, r):
     lens = [len(x) for x in i["rows"]] if i["kind"] == "rows" else i["lens"]
     t.add("start-rect" if len(set(lens)) == 1 else "start-ragged")
     t.add("ctor-" + i["kind"] + ("-np" if i["np"] else ""))
+    if c.get("stream"):
+        t.add("stream-" + c["stream"])
+    if len(lens) == 1 and i["kind"] == "rows" and i["np"]:
+        t.add("start-onerow-ndarray")
+    listbuilt_rect = len(lens) > 1 and len(set(lens)) == 1 and not i["np"]
     prev = None
+    seen_before, appended, slice_written = set(), False, False
     for it, rec in zip(c["items"], r.get("steps", [])):
+        if it["t"] == "selw":
+            if "sel" in rec:
+                t.add("selw-" + it["how"])
+                if len(rec["sel"]["data"]) >= 1 and len(lens) == 1:
+                    t.add("selw-of-onerow")
+            continue
         if it["t"] == "obs":
             t.add("obs-" + it["q"][0])
+            q0 = it["q"][0]
+            if q0 in ("Starts", "Elem", "ColSl") and "err" not in rec:
+                if appended and q0 in seen_before:
+                    t.add("hist-%s-append-%s" % (q0, q0))
+                seen_before.add(q0)
+            if q0 == "Row" and slice_written and listbuilt_rect:
+                t.add("rect-listbuilt-2dslice-rowread")
             continue
         k = it["op"][0]
         if rec.get("e") is None:
@@ -1010,6 +1245,12 @@ def tags(c, r):
             if prev and prev != route:
                 t.add("switch-%s-%s" % (prev, route))
             prev = route
+            if k == "Append":
+                appended = True
+            if k == "Set2D" and it["op"][2][0] == "sl" and len(set(rec["lens"])) == 1:
+                slice_written = True
+            if k in ("SetElem", "SetMask", "Set2D", "SetRow") and appended and seen_before:
+                t.add("write-after-append")
             if k == "Set2D":
                 t.add("2d-%s-%s" % (it["op"][1][0], it["op"][2][0]))
                 t.add("2d-val-" + it["op"][3][0])
@@ -1029,4 +1270,7 @@ ESSENTIAL_TAGS = ["start-rect", "start-ragged", "ctor-rows", "ctor-flat", "ctor-
                   "switch-A-B", "switch-B-A", "switch-append-A", "switch-append-B",
                   "2d-sl-sl", "2d-sl-int", "2d-sl-li", "2d-li-sl", "2d-li-li", "2d-val-rows", "2d-val-nested",
                   "rows-val-rows", "rows-val-s", "rejected-IndexError", "rejected-Reject", "rejected-AppendFlat",
-                  "obs-Cmp", "obs-Bin", "obs-BinRA", "obs-NotCmp", "obs-Max", "obs-All"]
+                  "obs-Cmp", "obs-Bin", "obs-BinRA", "obs-NotCmp", "obs-Max", "obs-All",
+                  "obs-Starts", "obs-Row", "obs-ColSl", "stream-append", "stream-onerow", "stream-rect",
+                  "hist-Starts-append-Starts", "hist-Elem-append-Elem", "hist-ColSl-append-ColSl", "write-after-append",
+                  "start-onerow-ndarray", "selw-sl", "selw-li", "selw-of-onerow", "rect-listbuilt-2dslice-rowread"]
